@@ -31,7 +31,14 @@ func drawC09(rt *rapid.T) *Case {
 		root.Set("list", cont)
 	}
 	p := &gen.Path{Root: gen.RootDollar, Steps: []gen.Step{{Kind: gen.KName, Key: "list", Not: gen.NDot}, {Kind: gen.KFilter, Q: q}}}
-	return &Case{Path: gen.Render(p, gen.Canon).Text, AST: p, Doc: root, UseNumber: rapid.Bool().Draw(rt, "usenumber"), Funcs: true}
+	c := &Case{Path: gen.Render(p, gen.Canon).Text, AST: p, Doc: root, UseNumber: rapid.Bool().Draw(rt, "usenumber"), Funcs: true}
+	if gen.Uniform(rt, "bare", 4) == 0 {
+		// every function-free sub-expression of this case goes through Retrieve with no Config
+		c.Accessor = false
+		c.Note = ""
+		c.DocKind = "bare-retrieve"
+	}
+	return c
 }
 
 // c09Entry is a parsed function kept across cases, with the first and the latest document it
@@ -88,7 +95,16 @@ func (s *selector) sel(text string) []int {
 	}
 	ent.last, ent.lastUN = docText, s.c.UseNumber
 	f := ent.f
-	got, rerr := f(s.doc)
+	var got []interface{}
+	var rerr error
+	if !strings.Contains(path, "()") && s.c.DocKind == "bare-retrieve" {
+		// the one-call form with no Config (the sub-expression uses no function)
+		got, rerr = jsonpath.Retrieve(path, s.doc)
+		noteParseVia(path, false, false, true)
+		s.st.Class("api:Retrieve(no Config)")
+	} else {
+		got, rerr = f(s.doc)
+	}
 	s.st.Eval(1)
 	var idx []int
 	if rerr != nil {
